@@ -63,6 +63,8 @@ def evaluate(pid, seeds=("1",), rnd=1):
                 break
     finally:
         sh("git -C /repo checkout -- .")
+        # the run against the patched tree has rewritten evidence/<id>.json: put the committed one back
+        sh("git -C /verif checkout -- evidence/%s.json" % pid)
         if tests:
             sh("cmake --build /repo/_build -j8 --target %s" % " ".join(tests))
     # keep the replay the check produced next to the seed, drop it from replays/
@@ -82,6 +84,12 @@ def evaluate(pid, seeds=("1",), rnd=1):
     return caught
 
 TESTS = {
+    "C02": ["iora_test_tcp_engine", "iora_test_udp_engine", "iora_test_transport_improvements", "iora_test_engine_introspection"],
+    "C06": ["iora_test_udp_engine", "iora_test_udp_engine_teardown_race"],
+    "C08": ["iora_test_timer", "iora_test_timing_wheel", "iora_test_timer_lifecycle"],
+    "C09": ["iora_test_threadpool", "iora_test_threadpool_cleanup", "iora_test_threadpool_lifecycle"],
+    "C14": ["iora_test_xml_parser"],
+    "C19": ["iora_test_dns_basic", "iora_test_dns_comprehensive", "iora_test_dns_async", "iora_test_dns_timer_cancellation"],
     "C10": ["iora_test_ring_buffer", "iora_test_blocking_queue"], "C11": ["iora_test_state"],
     "C12": ["iora_test_kvstore"], "C13": ["iora_test_json_parser"], "C16": ["iora_test_http"],
     "C17": ["iora_test_http", "iora_test_http_client_retry", "iora_test_http_client_lease",
